@@ -139,6 +139,8 @@ fn parse_grid_columns<'a, 'b: 'a, R: Read>(
     let mut done = false;
 
     while !done {
+        #[cfg(feature = "verif-hooks")]
+        crate::haystack::verif_hooks::tick(crate::haystack::verif_hooks::SITE_LOOP);
         parser.lexer.read()?;
 
         let name = parser.lexer.expect_id()?;
@@ -204,6 +206,8 @@ fn parse_grid_column_meta<'a, 'b: 'a, R: Read>(
     let mut dict = Dict::new();
 
     while !parser.lexer.is_eof() {
+        #[cfg(feature = "verif-hooks")]
+        crate::haystack::verif_hooks::tick(crate::haystack::verif_hooks::SITE_LOOP);
         if parser.lexer.is_char(b',') || !parser.lexer.is_id() {
             break;
         }
@@ -252,6 +256,8 @@ impl<'a, 'b: 'a, R: Read> RowParser<'a, 'b, R> {
         let mut row_terminated = false;
 
         while !row_terminated {
+            #[cfg(feature = "verif-hooks")]
+            crate::haystack::verif_hooks::tick(crate::haystack::verif_hooks::SITE_LOOP);
             if self.parser.lexer.is_char(b',') {
                 self.parser.lexer.read()?;
                 col_num += 1;
@@ -315,6 +321,8 @@ impl<'a, 'b: 'a, R: Read> Iterator for RowIterator<'a, 'b, R> {
     type Item = Result<Dict, Error>;
 
     fn next(&mut self) -> Option<Self::Item> {
+        #[cfg(feature = "verif-hooks")]
+        crate::haystack::verif_hooks::tick(crate::haystack::verif_hooks::SITE_LOOP);
         if !self.rows_parser.is_done() {
             match self.rows_parser.consume_end() {
                 Ok(end) => {
